@@ -368,72 +368,7 @@ func runR80(c *Ctx) {
 				}
 				return false
 			}
-			nPaths, nSuccess := 0, 0
-			bad := ""
-			var path []*ssa.BasicBlock
-			onPath := map[*ssa.BasicBlock]bool{}
-			var dfs func(b *ssa.BasicBlock)
-			dfs = func(b *ssa.BasicBlock) {
-				if bad != "" || nPaths > 20000 || onPath[b] {
-					return
-				}
-				onPath[b] = true
-				path = append(path, b)
-				defer func() { onPath[b] = false; path = path[:len(path)-1] }()
-				if ret, ok := b.Instrs[len(b.Instrs)-1].(*ssa.Return); ok {
-					nPaths++
-					// resolve the returned error along this path
-					v := ret.Results[ei]
-					for i := 0; i < 10; i++ {
-						phi, ok := v.(*ssa.Phi)
-						if !ok {
-							break
-						}
-						// the predecessor of phi's block on this path
-						var pred *ssa.BasicBlock
-						for k := len(path) - 1; k > 0; k-- {
-							if path[k] == phi.Block() {
-								pred = path[k-1]
-								break
-							}
-						}
-						if pred == nil {
-							break
-						}
-						for k, pb := range phi.Block().Preds {
-							if pb == pred {
-								v = phi.Edges[k]
-							}
-						}
-					}
-					success := false
-					switch t := v.(type) {
-					case *ssa.Const:
-						success = t.IsNil()
-					case *ssa.Call:
-						if o := calleeObj(t); o == nil || o.Pkg() == nil || o.Pkg().Path() != rel("qerrors") {
-							success = true
-						}
-					case *ssa.Extract:
-						success = true
-					}
-					if !success {
-						return
-					}
-					nSuccess++
-					for _, pb := range path {
-						if touches(pb) || operatorDecision(pb) {
-							return
-						}
-					}
-					bad = p.instrPos(ret)
-					return
-				}
-				for _, s := range b.Succs {
-					dfs(s)
-				}
-			}
-			dfs(fn.Blocks[0])
+			nPaths, nSuccess, bad := successPathsWithoutAction(p, fn, ei, func(b *ssa.BasicBlock) bool { return touches(b) || operatorDecision(b) })
 			key := fnm + "|success implies a kernel ran"
 			switch {
 			case nPaths > 20000:
@@ -447,6 +382,78 @@ func runR80(c *Ctx) {
 			}
 		}
 	}
+}
+
+
+// successPathsWithoutAction enumerates the acyclic paths of fn; for each path whose returned error (result ei,
+// phis resolved by the edge taken) is nil or a forwarded call result, it requires a block satisfying acts.
+// Returns the number of paths, of success-capable paths, and the position of an offending return ("" if none).
+func successPathsWithoutAction(p *Prog, fn *ssa.Function, ei int, acts func(b *ssa.BasicBlock) bool) (int, int, string) {
+	nPaths, nSuccess := 0, 0
+	bad := ""
+	var path []*ssa.BasicBlock
+	onPath := map[*ssa.BasicBlock]bool{}
+	var dfs func(b *ssa.BasicBlock)
+	dfs = func(b *ssa.BasicBlock) {
+		if bad != "" || nPaths > 20000 || onPath[b] {
+			return
+		}
+		onPath[b] = true
+		path = append(path, b)
+		defer func() { onPath[b] = false; path = path[:len(path)-1] }()
+		if ret, ok := b.Instrs[len(b.Instrs)-1].(*ssa.Return); ok {
+			nPaths++
+			v := ret.Results[ei]
+			for i := 0; i < 10; i++ {
+				phi, ok := v.(*ssa.Phi)
+				if !ok {
+					break
+				}
+				var pred *ssa.BasicBlock
+				for k := len(path) - 1; k > 0; k-- {
+					if path[k] == phi.Block() {
+						pred = path[k-1]
+						break
+					}
+				}
+				if pred == nil {
+					break
+				}
+				for k, pb := range phi.Block().Preds {
+					if pb == pred {
+						v = phi.Edges[k]
+					}
+				}
+			}
+			success := false
+			switch t := v.(type) {
+			case *ssa.Const:
+				success = t.IsNil()
+			case *ssa.Call:
+				if o := calleeObj(t); o == nil || o.Pkg() == nil || o.Pkg().Path() != rel("qerrors") {
+					success = true
+				}
+			case *ssa.Extract:
+				success = true
+			}
+			if !success {
+				return
+			}
+			nSuccess++
+			for _, pb := range path {
+				if acts(pb) {
+					return
+				}
+			}
+			bad = p.instrPos(ret)
+			return
+		}
+		for _, s := range b.Succs {
+			dfs(s)
+		}
+	}
+	dfs(fn.Blocks[0])
+	return nPaths, nSuccess, bad
 }
 
 // ---- R81: no call through a function variable that may still be nil ----
@@ -954,6 +961,366 @@ func runR84(c *Ctx) {
 				c.ok(key, p.instrPos(in), "the value is used only where ok holds")
 			} else {
 				c.bad(key, p.instrPos(in), fmt.Sprintf("the value of this %s is used at %s although ok is not known to hold there: when the key is missing / the type differs the zero value is used instead of reporting the error", what, bad))
+			}
+		})
+	}
+}
+
+// ---- R90: every database/sql Scanner of the module consumes the value it accepts ----
+
+func init() {
+	register(&Rule{ID: "R90", Name: "SCAN-DISPATCH", Floor: 1,
+		Text: "in every Scan(interface{}) error method of the module (database/sql.Scanner), on every acyclic path that can report success the scanned value was handed on: a method of the receiver was called (the typed appenders Bool/String/Int/Float/Null) or the configured coercion function was invoked. A case of the type switch that returns nil without appending loses the cell and leaves the column shorter than the others",
+		Run:  runR90})
+}
+
+func runR90(c *Ctx) {
+	p := c.P
+	for _, fn := range p.Funcs {
+		if fn.Parent() != nil || fn.Name() != "Scan" || fn.Signature.Recv() == nil || len(fn.Params) != 2 {
+			continue
+		}
+		ei := errResultIndex(fn.Signature)
+		if ei < 0 {
+			continue
+		}
+		if _, isIface := fn.Params[1].Type().Underlying().(*types.Interface); !isIface {
+			continue
+		}
+		recv := fn.Params[0]
+		acts := func(b *ssa.BasicBlock) bool {
+			for _, in := range b.Instrs {
+				call, ok := in.(*ssa.Call)
+				if !ok {
+					continue
+				}
+				if callee := call.Call.StaticCallee(); callee != nil && callee.Signature.Recv() != nil && len(call.Call.Args) > 0 && fieldPathRootIsParam(call.Call.Args[0], recv) {
+					return true
+				}
+				if call.Call.StaticCallee() == nil && !call.Call.IsInvoke() && builtinName(call) == "" {
+					if f, _ := fieldOf(call.Call.Value); f != nil {
+						return true // c.coerce(t)
+					}
+				}
+			}
+			return false
+		}
+		nPaths, nSuccess, bad := successPathsWithoutAction(p, fn, ei, acts)
+		key := fname(fn) + "|success implies the value was consumed"
+		switch {
+		case bad != "":
+			c.bad(key, bad, "a path returns nil although the scanned value was passed to no appender: the cell is dropped")
+		default:
+			c.ok(key, p.pos(fn.Pos()), fmt.Sprintf("%d acyclic paths, %d can report success, each hands the value on", nPaths, nSuccess))
+		}
+	}
+}
+
+// ---- R91: incrementing SQL placeholders count from 1 ----
+
+func init() {
+	register(&Rule{ID: "R91", Name: "SQL-PLACEHOLDER", Floor: 1,
+		Text: "in the INSERT builder (internal/io/sql.Insert) the number formatted into an incrementing placeholder is the zero-based key of the loop over the column names plus the constant 1 ($1..$n), and the other branch writes the constant `?`",
+		Run:  runR91})
+}
+
+func runR91(c *Ctx) {
+	p := c.P
+	fn := p.Func("internal/io/sql", "Insert")
+	if fn == nil {
+		c.undecided("internal/io/sql.Insert", "-", "not found")
+		return
+	}
+	n := 0
+	eachInstr(fn, func(in ssa.Instruction) {
+		call, ok := in.(*ssa.Call)
+		if !ok || !isFuncNamed(calleeObj(call), "fmt", "", "Sprintf") || len(call.Call.Args) < 2 {
+			return
+		}
+		fmtStr, ok := constString(call.Call.Args[0])
+		if !ok || !strings.Contains(fmtStr, "%d") {
+			return
+		}
+		n++
+		key := fname(fn) + "|placeholder number"
+		// the variadic argument: a []interface{} with one element
+		var val ssa.Value
+		if sl, ok := call.Call.Args[1].(*ssa.Slice); ok {
+			if al, ok := sl.X.(*ssa.Alloc); ok {
+				for _, r := range *al.Referrers() {
+					if ia, ok := r.(*ssa.IndexAddr); ok {
+						for _, r2 := range *ia.Referrers() {
+							if st, ok := r2.(*ssa.Store); ok {
+								val = st.Val
+							}
+						}
+					}
+				}
+			}
+		}
+		if mi, ok := val.(*ssa.MakeInterface); ok {
+			val = mi.X
+		}
+		add, ok := val.(*ssa.BinOp)
+		if !ok || add.Op != token.ADD {
+			c.bad(key, p.instrPos(call), "the placeholder number is not `loop key + 1` ("+describe(val)+")")
+			return
+		}
+		k, isK := constInt(add.Y)
+		isKey := false
+		for _, li := range loopsOf(fn) {
+			if li.key != nil && li.key == add.X && inLoop(li, call.Block()) {
+				isKey = true
+			}
+		}
+		if fmtStr != "$%d" {
+			c.bad(key, p.instrPos(call), fmt.Sprintf("the placeholder format is %q, not \"$%%d\"", fmtStr))
+		} else if isK && k == 1 && isKey {
+			c.ok(key, p.instrPos(call), "$ followed by the zero-based column number plus 1")
+		} else {
+			c.bad(key, p.instrPos(call), fmt.Sprintf("the placeholder number is %s, not the zero-based column number plus 1: placeholders must run $1..$n", describe(val)))
+		}
+	})
+	if n == 0 {
+		c.undecided(fname(fn)+"|placeholder number", p.pos(fn.Pos()), "no numbered placeholder is formatted")
+	}
+}
+
+// ---- R93: every option constructor has the effect its parameters name ----
+
+func init() {
+	register(&Rule{ID: "R93", Name: "OPTION-EFFECT", Floor: 25,
+		Text: "for every exported option constructor of the config packages (a function returning a named option function type, e.g. sql.Precision(n), sql.Incrementing(), csv.Delimiter(d)): the returned closure stores every parameter of the constructor (or a value computed from it) into a field of the configuration it receives, or passes it to another option; a constructor without parameters stores a non-zero constant into at least one field or applies other options; and the dialect presets of config/sql apply the escape character and placeholder style of their dialect (PostgreSQL: \" and $n; SQLite: \"; MySQL: `). An option that silently does nothing leaves the default in force",
+		Run:  runR93})
+}
+
+func runR93(c *Ctx) {
+	p := c.P
+	presets := map[string]struct {
+		esc  int64
+		incr bool
+	}{"Postgres": {'"', true}, "SQLite": {'"', false}, "MySQL": {'`', false}}
+	for _, fn := range p.Funcs {
+		if fn.Parent() != nil || fn.Pkg == nil || !strings.HasPrefix(fn.Pkg.Pkg.Path(), rel("config")+"/") || fn.Object() == nil || !fn.Object().Exported() {
+			continue
+		}
+		res := fn.Signature.Results()
+		if res.Len() != 1 || !isOptionFuncType(res.At(0).Type()) || fn.Signature.Recv() != nil {
+			continue
+		}
+		if len(fn.AnonFuncs) == 0 {
+			continue
+		}
+		fnm := fname(fn)
+		cl := fn.AnonFuncs[0]
+		// what the closure does
+		storesFrom := map[int]bool{} // free var index -> stored into config / passed to option
+		nonZeroConst := false
+		appliesOption := false
+		escStored, incrStored := int64(-1), false
+		var scan func(f *ssa.Function, fvOf map[*ssa.FreeVar]int, depth int)
+		scan = func(f *ssa.Function, fvOf map[*ssa.FreeVar]int, depth int) {
+			derives := func(v ssa.Value) int {
+				seen := map[ssa.Value]bool{}
+				found := -1
+				var walk func(v ssa.Value, d int)
+				walk = func(v ssa.Value, d int) {
+					if v == nil || seen[v] || d > 12 {
+						return
+					}
+					seen[v] = true
+					if fv, ok := v.(*ssa.FreeVar); ok {
+						if i, ok := fvOf[fv]; ok {
+							found = i
+						}
+						return
+					}
+					if al, ok := v.(*ssa.Alloc); ok {
+						for _, r := range *al.Referrers() {
+							if st, ok := r.(*ssa.Store); ok && st.Addr == ssa.Value(al) {
+								walk(st.Val, d+1)
+							}
+						}
+						return
+					}
+					if in, ok := v.(ssa.Instruction); ok {
+						var ops []*ssa.Value
+						for _, o := range in.Operands(ops) {
+							if o != nil && *o != nil {
+								walk(*o, d+1)
+							}
+						}
+					}
+				}
+				walk(v, 0)
+				return found
+			}
+			eachInstr(f, func(in ssa.Instruction) {
+				switch t := in.(type) {
+				case *ssa.Store:
+					if _, ok := t.Addr.(*ssa.FieldAddr); ok || isMapOrIndexOfField(t.Addr) {
+						if i := derives(t.Val); i >= 0 {
+							storesFrom[i] = true
+						}
+						if k, isK := constInt(t.Val); isK && k != 0 {
+							nonZeroConst = true
+						}
+						if isConstBool(t.Val, true) {
+							nonZeroConst = true
+						}
+					}
+				case *ssa.MapUpdate:
+					if i := derives(t.Value); i >= 0 {
+						storesFrom[i] = true
+					}
+					if i := derives(t.Key); i >= 0 {
+						storesFrom[i] = true
+					}
+				case *ssa.Call:
+					// another option applied to the same config: Opt(args)(c)
+					if inner, ok := t.Call.Value.(*ssa.Call); ok {
+						if callee := inner.Call.StaticCallee(); callee != nil && isOptionFuncType(inner.Type()) {
+							appliesOption = true
+							for _, a := range inner.Call.Args {
+								if i := derives(a); i >= 0 {
+									storesFrom[i] = true
+								}
+							}
+							switch callee.Name() {
+							case "EscapeChar":
+								if k, ok := constInt(inner.Call.Args[0]); ok {
+									escStored = k
+								}
+							case "Incrementing":
+								incrStored = true
+							}
+						}
+					}
+					// range loops over a captured slice that store elements count through derives() on the stores
+				}
+			})
+		}
+		fvOf := map[*ssa.FreeVar]int{}
+		// map free variables of the closure to the constructor's parameters
+		eachInstr(fn, func(in ssa.Instruction) {
+			mc, ok := in.(*ssa.MakeClosure)
+			if !ok || mc.Fn != ssa.Value(cl) {
+				return
+			}
+			for bi, b := range mc.Bindings {
+				for pi, prm := range fn.Params {
+					if b == ssa.Value(prm) || isAllocOfParam(b, prm) {
+						fvOf[cl.FreeVars[bi]] = pi
+					}
+				}
+			}
+		})
+		scan(cl, fvOf, 0)
+		key := fnm + "|effect"
+		var missing []string
+		for pi, prm := range fn.Params {
+			if !storesFrom[pi] {
+				missing = append(missing, prm.Name())
+			}
+		}
+		switch {
+		case len(fn.Params) > 0 && len(missing) > 0:
+			c.bad(key, p.pos(fn.Pos()), fmt.Sprintf("the option does not store its parameter(s) %s into the configuration: it has no effect and the default stays in force", strings.Join(missing, ", ")))
+		case len(fn.Params) == 0 && !nonZeroConst && !appliesOption:
+			c.bad(key, p.pos(fn.Pos()), "the parameterless option stores no non-zero constant and applies no other option: it has no effect")
+		default:
+			c.ok(key, p.pos(fn.Pos()), "every parameter reaches the configuration")
+		}
+		if want, ok := presets[fn.Name()]; ok && fn.Pkg.Pkg.Path() == rel("config/sql") {
+			pk := fnm + "|dialect preset"
+			switch {
+			case escStored != want.esc:
+				c.bad(pk, p.pos(fn.Pos()), fmt.Sprintf("the preset does not apply the dialect's escape character %q", rune(want.esc)))
+			case want.incr && !incrStored:
+				c.bad(pk, p.pos(fn.Pos()), "the preset does not select $n placeholders")
+			default:
+				c.ok(pk, p.pos(fn.Pos()), "escape character and placeholder style of the dialect are applied")
+			}
+		}
+	}
+}
+
+func isMapOrIndexOfField(addr ssa.Value) bool {
+	if ia, ok := addr.(*ssa.IndexAddr); ok {
+		_, isF := fieldOf(ia.X)
+		return isF != nil
+	}
+	return false
+}
+
+func isAllocOfParam(v ssa.Value, prm *ssa.Parameter) bool {
+	al, ok := v.(*ssa.Alloc)
+	return ok && singleDef(al) == ssa.Value(prm)
+}
+
+// ---- R98: a slice that is filled by append starts empty ----
+
+func init() {
+	register(&Rule{ID: "R98", Name: "APPEND-FROM-EMPTY", Floor: 25,
+		Text: "every slice allocated by make with a constant length that is then grown by append (directly or through the accumulator of a loop) is allocated with length 0: make([]T, 0, n) followed by append, or make([]T, n) followed by indexed stores, are the two idioms of the code base; make([]T, 1, n) followed by append starts the result with a zero element, so every row of a subset, an aggregation input or a resized column buffer is shifted by one",
+		Run:  runR98})
+}
+
+func runR98(c *Ctx) {
+	p := c.P
+	for _, fn := range p.Funcs {
+		fnm := fname(fn)
+		eachInstr(fn, func(in ssa.Instruction) {
+			mk, ok := in.(*ssa.MakeSlice)
+			if !ok {
+				return
+			}
+			k, isK := constInt(mk.Len)
+			if !isK {
+				return
+			}
+			// does it reach the first argument of an append?
+			appended := false
+			seen := map[ssa.Value]bool{}
+			var walk func(v ssa.Value, d int)
+			walk = func(v ssa.Value, d int) {
+				if seen[v] || d > 6 {
+					return
+				}
+				seen[v] = true
+				refs := v.Referrers()
+				if refs == nil {
+					return
+				}
+				for _, r := range *refs {
+					switch t := r.(type) {
+					case *ssa.Call:
+						if builtinName(t) == "append" && len(t.Call.Args) > 0 && t.Call.Args[0] == v {
+							appended = true
+						}
+					case *ssa.Phi:
+						walk(t, d+1)
+					case *ssa.Store:
+						// stored into a local variable that is later appended to
+						if al, ok := t.Addr.(*ssa.Alloc); ok && t.Val == v {
+							for _, r2 := range *al.Referrers() {
+								if ld, ok := r2.(*ssa.UnOp); ok && ld.Op == token.MUL {
+									walk(ld, d+1)
+								}
+							}
+						}
+					}
+				}
+			}
+			walk(mk, 0)
+			if !appended {
+				return
+			}
+			key := fnm + "|make then append"
+			if k == 0 {
+				c.okTrivial(key, p.instrPos(mk), "length 0")
+			} else {
+				c.bad(key, p.instrPos(mk), fmt.Sprintf("the slice is allocated with length %d and then grown by append: it starts with %d zero element(s) that precede everything appended", k, k))
 			}
 		})
 	}
